@@ -67,7 +67,7 @@ def run(ctx):
     r = ctx.mc("SigV4", "SigV4.MC.cfg", workers=ctx.pick(4, 12), timeout=ctx.pick(600, 2400), subst={"Big": big})
     ctx.extra["design_states"] = r.distinct
     # 1b. every open deviation of this property is live: enabling it alone breaks the design invariant
-    for tag in (TAGS[prop] if not ctx.quick() else ()):
+    for tag in (TAGS[prop] if not ctx.quick() else ()):      # thorough only (two more TLC start-ups)
         if tag not in ctx.open_tags(prop):
             continue
         d = ctx.tlc("SigV4", "SigV4.MC.cfg", workers=4, timeout=600, count_mc=False,
@@ -80,7 +80,7 @@ def run(ctx):
     else:
         cases = []
         for i in range(ctx.pick(1, 3)):
-            cases += _generate(ctx, "cases", big, ctx.pick(3, 5), ctx.pick(6, 12), ctx.seed * 3 + i)
+            cases += _generate(ctx, "cases", big, ctx.pick(3, 3), ctx.pick(4, 8), ctx.seed * 3 + i)
     seen, uniq = set(), []
     for c in cases:
         k = json.dumps(c, sort_keys=True)
@@ -98,8 +98,15 @@ def run(ctx):
         raise vlib.Infra("driver executed %d of %d cases" % (len(trace), len(cases)))
     # 4. TV against the model of the code
     devs = _devs(ctx)
-    n, flagged = ctx.validate_cases("SigV4Trace", "SigV4.Trace.cfg", ctx.path("trace.ndjson"), timeout=3000,
-                                    subst={"Deviations": devs})
+    n, flagged, chunk = 0, [], 30000
+    for lo in range(0, len(trace), chunk):          # bounded trace files keep TLC's memory use flat
+        part = ctx.path("trace-%d.ndjson" % (lo // chunk))
+        vlib.write_ndjson(part, trace[lo:lo + chunk])
+        k, fl = ctx.validate_cases("SigV4Trace", "SigV4.Trace.cfg", part, timeout=3000, subst={"Deviations": devs})
+        n += k
+        for fr in fl:
+            fr["l"] += lo
+        flagged += fl
     ctx.evaluations = n
     for fr in flagged:
         line = trace[fr["l"] - 1]
